@@ -289,8 +289,11 @@ def run_canaries(res: Result, mods):
                 res.canaries["applied"] -= 1
                 continue
             api.SOURCE_OVERRIDES[can["file"]] = src.replace(can["find"], can["replace"])
+            restore = None
             try:
                 if "engine_check" in can:
+                    if can.get("native", True):
+                        restore, n = native.patch_module_functions(can["file"], api.SOURCE_OVERRIDES[can["file"]])
                     reps = mod.ENGINE_CHECKS[can["engine_check"]]()
                 else:
                     reps = [api.verify(api.REGISTRY[can["function"]])]
@@ -299,6 +302,8 @@ def run_canaries(res: Result, mods):
                 killed = any(o.status != "proved" for r in reps for o in r.obligations) or any(r.status != "proved" for r in reps)
             finally:
                 del api.SOURCE_OVERRIDES[can["file"]]
+                if restore:
+                    restore()
             if killed:
                 res.canaries["killed"] += 1
             else:
